@@ -118,6 +118,7 @@ type Result struct {
 	Writes   []APICall  `json:"writes"`
 	Dials    []int64    `json:"dials"` // times (ms) corebgp's dialer reached the remote side or DialerControl
 	ServeErr string     `json:"serve_err"`
+	WaitsExpired int    `json:"waits_expired"` // recv / wait_event steps that ran into their time limit (the script lost its footing)
 	Inbound  []*Inbound `json:"inbound"` // every connection corebgp's listener accepted: when, and when corebgp closed it
 	Leaked   int        `json:"leaked"`
 	Error    string     `json:"error"`
@@ -623,6 +624,11 @@ func (r *runner) step(st []any) error {
 			}
 			time.Sleep(200 * time.Microsecond)
 		}
+		if !time.Now().Before(deadline) {
+			r.mu.Lock()
+			r.res.WaitsExpired++
+			r.mu.Unlock()
+		}
 	case "recv_eof":
 		cr := r.conns[st[1].(string)]
 		if cr == nil {
@@ -872,6 +878,11 @@ func (r *runner) step(st []any) error {
 				break
 			}
 			time.Sleep(200 * time.Microsecond)
+		}
+		if !time.Now().Before(deadline) {
+			r.mu.Lock()
+			r.res.WaitsExpired++
+			r.mu.Unlock()
 		}
 	default:
 		return fmt.Errorf("unknown step %q", op)
